@@ -146,13 +146,33 @@ def r_tables(ctx):
     return f
 
 
+def db_params(f):
+    """(read database, write database, write txn) parameters by type and position: the database following the RoTxn
+    parameter is the source, the one following the RwTxn parameter the destination"""
+    rdb = wdb = wtx = None
+    prev = None
+    for l in f.arg_locals():
+        ty = f.local_ty(l)
+        if 'heed::Database<' in ty:
+            if prev == 'ro' and rdb is None:
+                rdb = l
+            elif prev == 'rw' and wdb is None:
+                wdb = l
+        if 'RoTxn' in ty:
+            prev = 'ro'
+        elif 'RwTxn' in ty:
+            prev = 'rw'
+            wtx = l
+        elif 'heed::Database<' not in ty:
+            prev = None
+    return rdb, wdb, wtx
+
+
 def r_writes(ctx, f):
     F = ctx.F
     rule = 'U3'
-    wdb = f.arg_by_name('write_database')
-    rdb = f.arg_by_name('read_database')
-    wtx = f.arg_by_name('wtxn')
-    if not ctx.need(wdb and rdb and wtx, rule, 'parameters read_database / write_database / wtxn'):
+    rdb, wdb, wtx = db_params(f)
+    if not ctx.need(wdb and rdb and wtx, rule, 'parameters (rtxn, read database, wtxn, write database)'):
         return
     ops = db_ops(F, F.family(f))
     puts = [(g, c, op) for g, c, op, w, k in ops if op == 'put']
@@ -258,7 +278,7 @@ def r_v06(ctx):
     okr = bool(rng) and const_eval(rng[0][2][0]) == 0 and const_eval(rng[0][2][1]) == 65535
     ctx.check(okr, rule, 'all-indexes', f.loc(), 'loops over 0..=65535', 'the 0.5->0.6 upgrade does not visit every index 0..=65535')
     # database roles
-    wdb, rdb = f.arg_by_name('write_database'), f.arg_by_name('read_database')
+    rdb, wdb, _wtx = db_params(f)
     ctx.check(root(c.arg_term(0))[1:2] == (wdb,) and root(g0.arg_term(0))[1:2] == (rdb,), rule, 'db-roles', c.loc(), 'reads source, writes destination', 'source/destination databases are mixed up')
     # the version value: Version{major: parse(MAJOR), minor: parse(MINOR), patch: parse(PATCH)}
     v = paths.agg_fields(c.arg_term(3), 'version::Version')
